@@ -436,11 +436,94 @@ inline std::string readout_bloom(const bloom_filter& s0) {
   j.put("queries", q);
   return j.done();
 }
+// ------------------------------------------------------------------- Bloom filters living in caller memory
+// initialize_by_size / initialize_by_accuracy / writable_wrap: the caller's memory IS the documented image (always the 4-long
+// non-empty form) and other readers may open it at any time.  After every operation the memory is decoded by the independent
+// decoder: stored bit count = all-ones ("not counted") or exactly the popcount, bit array = reference model, and a fresh read-only
+// wrap and a deserialize of the same bytes must read out like the live filter.
+inline void bloom_memory_case(Rng& r) {
+  const uint64_t seed = r.coin() ? 9001 : r.next();
+  const int kind = static_cast<int>(r.below(3));
+  uint64_t bits = 64 * (1 + r.below(60)) - r.below(64);
+  uint16_t nh = static_cast<uint16_t>(1 + r.below(7));
+  const uint64_t acc_n = 20 + r.below(300); const double acc_p = 0.01 + r.unit() * 0.2;
+  if (kind == 1) { bits = bloom_filter::builder::suggest_num_filter_bits(acc_n, acc_p); nh = bloom_filter::builder::suggest_num_hashes(acc_n, bits); }
+  const size_t size = bloom_filter::get_serialized_size_bytes(bits);
+  std::vector<uint64_t> mem(size / 8 + 2, 0x5a5a5a5a5a5a5a5aULL);   // garbage: initialize must overwrite what it uses
+  uint8_t* M = reinterpret_cast<uint8_t*>(mem.data());
+  const uint64_t m = ((bits + 63) / 64) * 64;
+  std::vector<uint8_t> model(m / 8, 0);
+  std::vector<Val> inputs;
+  auto model_add = [&](const Val& v, std::vector<uint8_t>& mb) { std::vector<uint64_t> ix; bloom_ref_indexes(v, seed, nh, m, ix); for (uint64_t j : ix) mb[j >> 3] |= uint8_t(1u << (j & 7)); };
+  auto some_val = [&]() { Val v = gen_val(r, 1ULL << 40, r.chance(0.7) ? int(V_U64) : -1); return v; };
+  std::unique_ptr<bloom_filter> live;
+  if (kind == 0) live.reset(new bloom_filter(bloom_filter::builder::initialize_by_size(M, size, bits, nh, seed)));
+  else if (kind == 1) live.reset(new bloom_filter(bloom_filter::builder::initialize_by_accuracy(M, size, acc_n, acc_p, seed)));
+  else {
+    bloom_filter h = bloom_filter::builder::create_by_size(bits, nh, seed);
+    for (int i = 0, n = 1 + int(r.below(10)); i < n; ++i) { Val v = some_val(); apply_update(h, v); std::string cb; if (bloom_canon(v, cb)) { model_add(v, model); inputs.push_back(v); } }
+    if (h.is_empty()) { Val v; v.kind = V_U64; v.u = 7; apply_update(h, v); model_add(v, model); inputs.push_back(v); }
+    const auto img = h.serialize();
+    memcpy(M, img.data(), img.size());
+    live.reset(new bloom_filter(bloom_filter::writable_wrap(M, img.size())));
+  }
+  const char* kinds[] = {"initialize_by_size", "initialize_by_accuracy", "writable_wrap"};
+  const std::string base = std::string("memory filter ") + kinds[kind] + " bits=" + std::to_string(m) + " hashes=" + std::to_string(nh);
+  VF_CHECK(live->get_capacity() == m && live->get_num_hashes() == nh && live->is_wrapped(), "bloom|memory|configuration", base);
+  auto observe = [&](const std::string& after) {
+    const std::string ctx = base + " after " + after;
+    Bloom d = decode_bloom(M, size);
+    VF_CHECK(!d.empty && d.pre_longs == 4, "bloom|memory-image|not-the-four-long-form", ctx);
+    VF_CHECK(d.num_hashes == nh && d.seed == seed && uint64_t(d.num_longs) * 64 == m, "bloom|memory-image|configuration", ctx);
+    VF_CHECK(d.bits == model, "bloom|memory-image|bit-array-vs-reference-model", ctx);
+    const uint64_t pop = d.popcount();
+    VF_CHECK(d.num_bits_set == UINT64_MAX || d.num_bits_set == pop, "bloom|memory-image|stored-bit-count-neither-marker-nor-popcount", ctx + " stored=" + std::to_string(d.num_bits_set) + " popcount=" + std::to_string(pop));
+    count(d.num_bits_set == UINT64_MAX ? "bloom_memory_count_marker" : "bloom_memory_count_exact");
+    // second readers of the same bytes
+    for (int rd = 0; rd < 2; ++rd) {
+      const std::string R = rd ? "deserialize" : "wrap";
+      try {
+        bloom_filter other = rd ? bloom_filter::deserialize(M, size) : bloom_filter(bloom_filter::wrap(M, size));
+        VF_CHECK(other.is_empty() == (pop == 0), "bloom|memory-image|" + R + "|is-empty-vs-bits", ctx + " popcount=" + std::to_string(pop));
+        VF_CHECK(other.is_empty() == live->is_empty(), "bloom|memory-image|" + R + "|is-empty-vs-live-filter", ctx);
+        bool ok = true;
+        for (const Val& v : inputs) { std::string cb; bloom_canon(v, cb); ok = ok && other.query(cb.data(), cb.size()) == live->query(cb.data(), cb.size()); }
+        Rng pr(5);
+        for (int i = 0; i < 60; ++i) { const uint64_t x = pr.next(); ok = ok && other.query(x) == live->query(x); }
+        VF_CHECK(ok, "bloom|memory-image|" + R + "|queries-differ-from-live-filter", ctx);
+        if (rd == 1) VF_CHECK(other.get_bits_used() == pop, "bloom|memory-image|deserialize|bits-used", ctx);
+      } catch (const std::exception& e) { checked(); fail("bloom|memory-image|" + R + "|threw", ctx + ": " + e.what()); }
+    }
+  };
+  observe("creation");
+  const int nops = 1 + static_cast<int>(r.below(10));
+  for (int op = 0; op < nops; ++op) {
+    const uint64_t c = r.below(100);
+    std::string what;
+    if (c < 45) { Val v = some_val(); apply_update(*live, v); std::string cb; if (bloom_canon(v, cb)) { model_add(v, model); inputs.push_back(v); } what = "update"; count("bloom_memory_update"); }
+    else if (c < 65) { Val v; v.kind = V_U64; v.u = r.next(); std::vector<uint8_t> before = model; model_add(v, model); const bool was = live->query_and_update(v.u);
+      VF_CHECK(was == (before == model), "bloom|memory|query-and-update-result", base); inputs.push_back(v); what = "query_and_update"; count("bloom_memory_query_and_update"); }
+    else if (c < 75 || c >= 96) { bloom_filter o = bloom_filter::builder::create_by_size(bits, nh, seed); std::vector<uint8_t> ob(m / 8, 0);
+      for (int i = 0, n = int(r.below(8)); i < n; ++i) { Val v; v.kind = V_U64; v.u = r.next(); o.update(v.u); model_add(v, ob); if (c < 75) inputs.push_back(v); }
+      if (c < 75) { live->union_with(o); for (size_t i = 0; i < model.size(); ++i) model[i] |= ob[i]; what = "union_with"; count("bloom_memory_union"); }
+      else { live->intersect(o); for (size_t i = 0; i < model.size(); ++i) model[i] &= ob[i]; what = "intersect"; count("bloom_memory_intersect"); } }
+    else if (c < 85) { live->invert(); for (auto& b : model) b = uint8_t(~b); what = "invert"; count("bloom_memory_invert"); }
+    else if (c < 90) { live->reset(); std::fill(model.begin(), model.end(), 0); what = "reset"; count("bloom_memory_reset"); }
+    else { const uint64_t used = live->get_bits_used(); uint64_t pop = 0; for (uint8_t b : model) pop += __builtin_popcount(b);
+      VF_CHECK(used == pop, "bloom|memory|bits-used-vs-reference-model", base); what = "get_bits_used"; count("bloom_memory_get_bits_used"); }
+    observe(what);
+  }
+  count(std::string("bloom_memory_") + kinds[kind]);
+  uint64_t pop = 0; for (uint8_t b : model) pop += __builtin_popcount(b);
+  sig(mix64(mix64(m, nh), mix64(pop, kind + 77)));
+}
+
 inline void register_bloom() {
   Family f; f.name = "bloom"; f.group = 3; f.nvariants = 18;
   f.build = [](int v, Rng& r, bool small) { BloomState st = gen_bloom(v, r, small); return Built{write_bloom(st.bf, false), readout_bloom(st.bf)}; };
   f.read = [](const std::string& img, bool stream, int) { return readout_bloom(read_bloom(img, stream)); };
   f.decode_case = [](int v, Rng& r, bool small) {
+    if (r.chance(0.35)) { bloom_memory_case(r); count("decoded_bloom"); return; }
     BloomState st = gen_bloom(v, r, small);
     bloom_filter& s = st.bf;
     const std::string ctx = "variant=" + std::to_string(v) + " bits=" + std::to_string(s.get_capacity()) + " hashes=" + std::to_string(s.get_num_hashes()) + " inputs=" + std::to_string(st.inputs.size());
